@@ -307,6 +307,19 @@ def run_of_glyphs(draw, la, x, y, start_id, n=None):
 @st.composite
 def pair_cases(draw):
     la = draw(la_params())
+    if draw(st.integers(0, 4)) == 0:
+        # overstrike: a narrow glyph painted back inside the previous one (an accent, a TJ pen-back move), then the
+        # next glyph: the gap that decides about the space is the one to the glyph before it in the content, not the
+        # one to the right edge of the line so far
+        x, y, w, h = Fr(100), Fr(300), Fr(10), Fr(10)
+        e = draw(st.sampled_from([Fr(0), Fr(1), Fr(1, 2), Fr(3)]))
+        inner = draw(st.sampled_from([Fr(1), Fr(2), Fr(5)]))
+        glyphs = [{"x": x, "y": y, "w": w, "h": h, "t": "A", "id": 0},
+                  {"x": x + inner, "y": y, "w": Fr(4), "h": h, "t": "b", "id": 1},
+                  {"x": x + w + e, "y": y, "w": w, "h": h, "t": "C", "id": 2}]
+        if draw(st.booleans()):
+            glyphs.append({"x": x + 2 * w + e + Fr(1, 8), "y": y, "w": w, "h": h, "t": "D", "id": 3})
+        return {"kind": "run", "glyphs": glyphs, "la": la, "near": True, "tags": ["overstrike"]}
     glyphs, near = draw(run_of_glyphs(la, Fr(50), Fr(300), 0, draw(st.integers(2, 8))))
     return {"kind": "run", "glyphs": glyphs, "la": la, "near": near}
 
